@@ -657,12 +657,20 @@ func (r *pxRun) branch(st *pxState, fr *pxFrame, b *ssa.BasicBlock, cond *T, don
 		if k < len(alts)-1 {
 			s2, f2 = st.clone(), fr.copy()
 		}
+		infeasible := false
 		for _, l := range a.lits {
 			if _, had := s2.facts[l.Atom]; !had {
 				s2.order = append(s2.order, l.Atom)
 				s2.terms[l.Atom] = cond
 			}
 			s2.facts[l.Atom] = l.Pol
+			// len(x) == c (or len(x)-k == c): the length is known from here on
+			if xs, n, ok := lenEquation(cond, a.i == 0); ok && len(a.lits) == 1 {
+				s2.mem["#len:"+xs] = cInt(n)
+			}
+			if !s2.refineLen(l) {
+				infeasible = true
+			}
 			// a map range that has just run to exhaustion has counted the map's entries
 			if !l.Pol {
 				if rg := rangeOfNextAtom(cond); rg != nil && len(rg.A) == 1 && rg.A[0].Op != "make" && !s2.mapTouched(rg.A[0]) {
@@ -678,8 +686,102 @@ func (r *pxRun) branch(st *pxState, fr *pxFrame, b *ssa.BasicBlock, cond *T, don
 				}
 			}
 		}
+		if infeasible {
+			continue
+		}
 		r.block(s2, f2, b.Succs[a.i], b, done)
 	}
+}
+
+// refineLen keeps integer bounds on len(x) from the comparisons of the path (c < len(x), x == "" …);
+// when they meet the length is known, and every earlier fact about len(x) must agree with it —
+// otherwise the path is infeasible (false is returned).
+func (st *pxState) refineLen(l Lit) bool {
+	var x string
+	lo, hi := int64(-1), int64(-1)
+	a := l.Atom
+	switch {
+	case strings.HasPrefix(a, "empty(") && strings.HasSuffix(a, ")"):
+		x = a[6 : len(a)-1]
+		if l.Pol {
+			hi = 0
+		} else {
+			lo = 1
+		}
+	case strings.HasPrefix(a, "lt(") && strings.HasSuffix(a, "))"):
+		body := a[3 : len(a)-1]
+		if i := strings.Index(body, ",len("); i > 0 {
+			if c, err := strconv.ParseInt(body[:i], 10, 64); err == nil {
+				x = body[i+5 : len(body)-1]
+				if l.Pol {
+					lo = c + 1
+				} else {
+					hi = c
+				}
+			}
+		}
+	case strings.HasPrefix(a, "lt(len("):
+		body := a[3 : len(a)-1]
+		if i := strings.LastIndex(body, "),"); i > 0 {
+			if c, err := strconv.ParseInt(body[i+2:], 10, 64); err == nil {
+				x = body[4:i]
+				if l.Pol {
+					hi = c - 1
+				} else {
+					lo = c
+				}
+			}
+		}
+	}
+	if x == "" || (lo < 0 && hi < 0) {
+		return true
+	}
+	get := func(k string, d int64) int64 {
+		if v, ok := st.mem[k]; ok {
+			if n, ok := v.intVal(); ok {
+				return n
+			}
+		}
+		return d
+	}
+	curLo, curHi := get("#lo:"+x, 0), get("#hi:"+x, 1<<40)
+	if lo > curLo {
+		curLo = lo
+	}
+	if hi >= 0 && hi < curHi {
+		curHi = hi
+	}
+	st.mem["#lo:"+x], st.mem["#hi:"+x] = cInt(curLo), cInt(curHi)
+	if curLo > curHi {
+		return false
+	}
+	if kn, ok := st.mem["#len:"+x]; ok {
+		if n, ok := kn.intVal(); ok && (n < curLo || n > curHi) {
+			return false
+		}
+	}
+	if curLo == curHi {
+		st.mem["#len:"+x] = cInt(curLo)
+		// every single-literal fact about len(x) must agree
+		for atom, pol := range st.facts {
+			if !strings.Contains(atom, "len("+x+")") {
+				continue
+			}
+			t := st.terms[atom]
+			if t == nil {
+				continue
+			}
+			ls := termLits(t, true)
+			if len(ls) != 1 || ls[0].Atom != atom {
+				continue
+			}
+			truth := pol == ls[0].Pol
+			if b, ok := st.substLens(t).boolVal(); ok && b != truth {
+				return false
+			}
+		}
+	}
+	return true
 }
 
 // isErrNilAtom: the literal tests an error-typed call result against nil.
@@ -941,6 +1043,9 @@ func (r *pxRun) eval(st *pxState, fr *pxFrame, v ssa.Value) *T {
 		}
 		if x.Low == nil && x.High == nil {
 			return base
+		}
+		if l, ok := lo.intVal(); ok && l == 0 && x.High == nil {
+			return base // x[0:]
 		}
 		if h, ok := hi.intVal(); ok && h == 0 && x.High != nil {
 			return &T{Op: "elems", HasEl: true, Typ: x.Type()} // x[:0]: an empty slice
@@ -1341,7 +1446,7 @@ func (r *pxRun) store(st *pxState, fr *pxFrame, a, v *T, in ssa.Instruction) {
 
 // ---- calls
 
-var pxPure = map[string]bool{"fmt.Sprintf": true, "fmt.Sprint": true, "fmt.Errorf": true, "errors.New": true}
+var pxPure = map[string]bool{"fmt.Sprintf": true, "fmt.Sprint": true, "fmt.Errorf": true, "errors.New": true, "fmt.Appendf": true, "fmt.Append": true}
 
 func pxPureCallee(sc *ssa.Function) bool {
 	if sc == nil {
@@ -1615,10 +1720,10 @@ func foldExt(name string, args []*T, typ types.Type, site ssa.Instruction) *T {
 		}
 		return acc
 	}
-	// variadic slices are flattened into the argument list
+	// a variadic slice (always the last argument) is flattened into the argument list
 	var as []*T
-	for _, a := range args {
-		if a.HasEl && a.Op == "elems" {
+	for i, a := range args {
+		if a.HasEl && a.Op == "elems" && i == len(args)-1 && !strings.HasPrefix(name, "strconv.Append") {
 			as = append(as, a.Elems...)
 		} else {
 			as = append(as, a)
@@ -1681,6 +1786,21 @@ func termTemplate(t *T) []pseg {
 			}
 			return
 		case "call":
+			// arity of the routines understood below (a term with fewer arguments is left opaque)
+			if need, ok := map[string]int{"strconv.Quote": 1, "strconv.AppendQuote": 2, "strconv.QuoteRune": 1, "strconv.QuoteRuneToASCII": 1, "strconv.QuoteRuneToGraphic": 1,
+				"strconv.AppendQuoteRune": 2, "strconv.AppendQuoteRuneToASCII": 2, "strconv.Itoa": 1, "strconv.FormatBool": 1, "strconv.FormatInt": 2, "strconv.FormatUint": 2,
+				"strconv.AppendInt": 3, "strconv.AppendUint": 3, "strconv.FormatFloat": 4, "strconv.FormatComplex": 4, "strconv.AppendBool": 2, "strconv.AppendFloat": 5,
+				"(*bytes.Buffer).Bytes": 1, "(*bytes.Buffer).String": 1, "(*strings.Builder).String": 1}[t.Aux]; ok && len(t.A) < need {
+				add(pseg{Verb: "s", Val: t})
+				return
+			}
+			if t.Aux == "fmt.Appendf" && len(t.A) >= 2 {
+				if !t.A[0].Nil && !(t.A[0].HasEl && len(t.A[0].Elems) == 0) {
+					walk(t.A[0])
+				}
+				walk(&T{Op: "call", Aux: "fmt.Sprintf", A: t.A[1:], Typ: types.Typ[types.String]})
+				return
+			}
 			switch t.Aux {
 			case "fmt.Sprintf":
 				if len(t.A) >= 1 {
@@ -1797,6 +1917,23 @@ func termTemplate(t *T) []pseg {
 					add(pseg{Verb: vb, Val: t.A[1]})
 					return
 				}
+			case "strconv.AppendBool":
+				if !t.A[0].Nil && !(t.A[0].HasEl && len(t.A[0].Elems) == 0) {
+					walk(t.A[0])
+				}
+				add(pseg{Verb: "t", Val: t.A[1]})
+				return
+			case "strconv.AppendFloat":
+				f, ok1 := t.A[2].intVal()
+				p, ok2 := t.A[3].intVal()
+				bits, ok3 := t.A[4].intVal()
+				if ok1 && ok2 && ok3 && f == 'g' && p == -1 {
+					if !t.A[0].Nil && !(t.A[0].HasEl && len(t.A[0].Elems) == 0) {
+						walk(t.A[0])
+					}
+					add(pseg{Verb: "g", Val: t.A[1], Bits: int(bits)})
+					return
+				}
 			case "strconv.FormatFloat", "strconv.FormatComplex":
 				f, ok1 := t.A[1].intVal()
 				p, ok2 := t.A[2].intVal()
@@ -1898,6 +2035,35 @@ func contradictsKnown(f Facts, atom string) bool {
 }
 
 func splitConstEq(body string) (c, x string, ok bool) {
+	if c, x, ok = splitConstEq0(body); ok {
+		return
+	}
+	// constant second: "x,42" / `x,"text"`
+	if i := strings.LastIndex(body, ","); i > 0 && i+1 < len(body) {
+		suf := body[i+1:]
+		num := true
+		for _, ch := range suf {
+			if !(ch >= '0' && ch <= '9' || ch == '-') {
+				num = false
+			}
+		}
+		if num {
+			return suf, body[:i], true
+		}
+	}
+	if strings.HasSuffix(body, `"`) {
+		for i := len(body) - 2; i > 0; i-- {
+			if body[i] == '"' && body[i-1] == ',' {
+				if _, err := strconv.Unquote(body[i:]); err == nil {
+					return body[i:], body[:i-1], true
+				}
+			}
+		}
+	}
+	return "", "", false
+}
+
+func splitConstEq0(body string) (c, x string, ok bool) {
 	if len(body) == 0 {
 		return
 	}
@@ -2084,4 +2250,41 @@ func rangeOfNextAtom(cond *T) *T {
 		return nil
 	}
 	return cond.A[0].A[0]
+}
+
+// lenEquation: the branch taken establishes len(x) = n (from len(x) == c, len(x)-k == c, c == len(x)+k …).
+func lenEquation(cond *T, taken bool) (string, int64, bool) {
+	for cond != nil && cond.Op == "not" {
+		cond = cond.A[0]
+		taken = !taken
+	}
+	if cond == nil || cond.Op != "binop" || len(cond.A) != 2 {
+		return "", 0, false
+	}
+	if !((cond.Aux == "==" && taken) || (cond.Aux == "!=" && !taken)) {
+		return "", 0, false
+	}
+	for k := 0; k < 2; k++ {
+		c, okc := cond.A[k].intVal()
+		if !okc {
+			continue
+		}
+		t := cond.A[1-k]
+		if t.Op == "len" && len(t.A) == 1 {
+			return t.A[0].String(), c, c >= 0
+		}
+		if t.Op == "binop" && (t.Aux == "-" || t.Aux == "+") && len(t.A) == 2 {
+			if d, okd := t.A[1].intVal(); okd && t.A[0].Op == "len" {
+				n := c + d
+				if t.Aux == "+" {
+					n = c - d
+				}
+				return t.A[0].A[0].String(), n, n >= 0
+			}
+			if d, okd := t.A[0].intVal(); okd && t.A[1].Op == "len" && t.Aux == "+" {
+				return t.A[1].A[0].String(), c - d, c-d >= 0
+			}
+		}
+	}
+	return "", 0, false
 }
